@@ -1,0 +1,11 @@
+//go:build !verif
+
+// Package verif holds the instrumentation points used by the external verification
+// harness. With the "verif" build tag off, Point is an empty function.
+package verif
+
+// Enabled reports whether the instrumentation is compiled in.
+const Enabled = false
+
+// Point is an instrumentation point; a no-op unless built with the "verif" tag.
+func Point(name string, args ...any) {}
